@@ -90,7 +90,7 @@ func c20Run(c c20Case, st *fw.Stats) []fw.Viol {
 	switch c.Kind {
 	case "auth":
 		accounts := c20Accounts[c.Accounts]
-		for _, placement := range []string{"route", "global", "group", "global+405", "global+404", "route-dynamic-cached", "route-dynamic-cached-repeat", "nested-group-siblings", "group-use-siblings", "nested-group-siblings-single-mw", "group-use-siblings-single-mw", "global-two-gates", "group-use-two-gates", "banner-then-gate", "late-global-gate", "forwarded-to-gated-route", "notfound-chain-gate-single-mw", "resource-update-put", "resource-update-patch"} {
+		for _, placement := range []string{"route", "global", "group", "global+405", "global+404", "route-dynamic-cached", "route-dynamic-cached-repeat", "nested-group-siblings", "group-use-siblings", "nested-group-siblings-single-mw", "group-use-siblings-single-mw", "global-two-gates", "group-use-two-gates", "banner-then-gate", "late-global-gate", "forwarded-to-gated-route", "notfound-chain-gate-single-mw", "resource-update-put", "resource-update-patch", "after-escaped-panic", "attached-in-group-then-use"} {
 			for _, hdr := range c20Auth {
 				st.Evals++
 				st.Nontrivial++
@@ -154,6 +154,30 @@ func c20Run(c c20Case, st *fw.Stats) []fw.Viol {
 					ctl.h["Update"] = main
 					ctl.uses["Update"] = []rux.HandlerFunc{auth, after}
 					r.Resource("/", ctl)
+				case "after-escaped-panic":
+					// no OnPanic hook: an earlier request panicked in the first handler of its chain and the panic was
+					// recovered by the caller (as net/http does); the gated route is asked next
+					r.GET("/s", main, auth, after)
+					r.GET("/boom", func(ctx *rux.Context) {}, func(ctx *rux.Context) { panic("boom") })
+					// (whether the next request gets the very context of the panicking one is up to sync.Pool: the sequence
+					// "panic, panic, request without credentials" is repeated; the gate must hold every time)
+					for round := 0; round < 30; round++ {
+						_ = try(func() { r.ServeHTTP(httptest.NewRecorder(), httptest.NewRequest("GET", "/boom", nil)) })
+						_ = try(func() { r.ServeHTTP(httptest.NewRecorder(), httptest.NewRequest("GET", "/boom", nil)) })
+						trace = nil
+						w0 := httptest.NewRecorder()
+						_ = try(func() { r.ServeHTTP(w0, httptest.NewRequest("GET", "/s", nil)) })
+						if len(trace) != 0 || w0.Code != 401 {
+							add("auth:open-for-invalid", fmt.Sprintf("HTTPBasicAuth(%v) as route middleware; two requests whose first handler panicked (no hook, the caller recovered) were served, then GET /s WITHOUT credentials (round %d): status %d, downstream ran %v", accounts, round+1, w0.Code, trace))
+							break
+						}
+					}
+					trace = nil
+				case "attached-in-group-then-use":
+					// a Route value attached inside a group; the gate is added to it afterwards with Route.Use
+					rt := rux.NewRoute("/s", main, "GET")
+					r.Group("/in", func() { rt.AttachTo(r) }, pass)
+					rt.Use(auth, after)
 				case "notfound-chain-gate-single-mw":
 					// the gate is the first handler of a custom NotFound chain on a router WITHOUT global middleware; the router
 					// has served an unmatched and then a matched request before
@@ -220,7 +244,7 @@ func c20Run(c c20Case, st *fw.Stats) []fw.Viol {
 				switch placement {
 				case "route-dynamic-cached", "route-dynamic-cached-repeat":
 					req = httptest.NewRequest("GET", "/s/7", nil)
-				case "nested-group-siblings", "group-use-siblings", "nested-group-siblings-single-mw", "group-use-siblings-single-mw", "group-use-two-gates":
+				case "nested-group-siblings", "group-use-siblings", "nested-group-siblings-single-mw", "group-use-siblings-single-mw", "group-use-two-gates", "attached-in-group-then-use":
 					req = httptest.NewRequest("GET", "/in/s", nil)
 				}
 				if placement == "forwarded-to-gated-route" {
@@ -535,7 +559,7 @@ func c20Run(c c20Case, st *fw.Stats) []fw.Viol {
 var c20Spec = fw.Spec[c20Case]{
 	ID:    "C20",
 	Level: "model_checking",
-	Rule: "complete decision tables: HTTPBasicAuth: 6 account maps (nil, empty, one user, empty password, two users, password containing ':') x 27 Authorization values (incl. the full square of known / unknown / empty users x matching / other / empty passwords) (absent, valid, wrong password, unknown user, empty user / password, no colon, bare scheme, bad base64, scheme in other case, other scheme, double space, padding, leading space, case-changed user, empty) x 19 placements (per-action middleware of a resource's two-method Update action, asked with PUT and with PATCH; first handler of a custom NotFound chain on a router without global middleware that served unmatched and matched requests before; two stacked gates with different account lists are among them; a global gate installed after the route served its first request; the gated route reached through another route's middleware that re-dispatches with HandleContext; behind a middleware that has already written body bytes; two gates registered from one call site with Router.Use, globally and inside a group; route, global, group middleware; global gate in front of the not-allowed and of the not-found handlers; a dynamic route on a caching router, first request and repeat after a valid one filled the cache; route-level gate of the first of several sibling routes inside nested groups / inside a group with three Use calls, with two and with exactly one route-level middleware per sibling); " +
+	Rule: "complete decision tables: HTTPBasicAuth: 6 account maps (nil, empty, one user, empty password, two users, password containing ':') x 27 Authorization values (incl. the full square of known / unknown / empty users x matching / other / empty passwords) (absent, valid, wrong password, unknown user, empty user / password, no colon, bare scheme, bad base64, scheme in other case, other scheme, double space, padding, leading space, case-changed user, empty) x 21 placements (right after a request whose first handler panicked without a hook (the caller recovered); on a Route value attached inside a group and given the gate afterwards with Route.Use; per-action middleware of a resource's two-method Update action, asked with PUT and with PATCH; first handler of a custom NotFound chain on a router without global middleware that served unmatched and matched requests before; two stacked gates with different account lists are among them; a global gate installed after the route served its first request; the gated route reached through another route's middleware that re-dispatches with HandleContext; behind a middleware that has already written body bytes; two gates registered from one call site with Router.Use, globally and inside a group; route, global, group middleware; global gate in front of the not-allowed and of the not-found handlers; a dynamic route on a caching router, first request and repeat after a valid one filled the cache; route-level gate of the first of several sibling routes inside nested groups / inside a group with three Use calls, with two and with exactly one route-level middleware per sibling); " +
 		"HTTPMethodOverrideHandler: 10 request methods x 13 override values x 6 carriers (none, header, query, body, header+query agreeing, header+body disagreeing - the last for totality only) x {a plain net/http handler downstream, a rux router whose handler sits behind handlers.Timeout and a wrapped net/http handler}; WrapHTTPHandlers: lists of 1..4 distinguishable wrappers (+ the override gate in the list); WrapHTTPHandler / WrapHTTPHandlerFunc and their four aliases at every subset of positions of chains n<=4; every row is non-trivial",
 	Assume: []string{"'well-formed Basic credentials' = scheme Basic (any case), one space, valid base64, a colon in the decoded text", "when both override carriers disagree the statement does not say which wins; those rows are executed but not asserted"},
 	Bounds: func(tier string) map[string]any {
